@@ -23,14 +23,77 @@ import (
 
 type vxFailDB struct {
 	*memory.Database
-	fail bool
+	fail    bool // the commit of the next batch fails
+	failPut int  // > 0: the failPut-th Put/Delete/DeleteRange issued to the next batch fails
+	puts    int
 }
+
+type vxFailIndexedBatch struct {
+	db.IndexedBatch
+	f *vxFailDB
+}
+
+func (b vxFailIndexedBatch) Put(k, v []byte) error {
+	if b.f.countWrite() {
+		return errVxWrite
+	}
+	return b.IndexedBatch.Put(k, v)
+}
+
+func (b vxFailIndexedBatch) Delete(k []byte) error {
+	if b.f.countWrite() {
+		return errVxWrite
+	}
+	return b.IndexedBatch.Delete(k)
+}
+
+func (b vxFailIndexedBatch) DeleteRange(s, e []byte) error {
+	if b.f.countWrite() {
+		return errVxWrite
+	}
+	return b.IndexedBatch.DeleteRange(s, e)
+}
+
+type vxFailBatch struct {
+	db.Batch
+	f *vxFailDB
+}
+
+func (b vxFailBatch) Put(k, v []byte) error {
+	if b.f.countWrite() {
+		return errVxWrite
+	}
+	return b.Batch.Put(k, v)
+}
+
+func (b vxFailBatch) Delete(k []byte) error {
+	if b.f.countWrite() {
+		return errVxWrite
+	}
+	return b.Batch.Delete(k)
+}
+
+func (b vxFailBatch) DeleteRange(s, e []byte) error {
+	if b.f.countWrite() {
+		return errVxWrite
+	}
+	return b.Batch.DeleteRange(s, e)
+}
+
+func (f *vxFailDB) countWrite() bool {
+	f.puts++
+	return f.failPut > 0 && f.puts == f.failPut
+}
+
+var errVxWrite = errors.New("write failed")
 
 var errVxCommit = errors.New("commit failed")
 
 func (f *vxFailDB) Update(fn func(db.IndexedBatch) error) error {
 	batch := f.Database.NewIndexedBatch()
-	if err := fn(batch); err != nil {
+	f.puts = 0
+	if err := fn(vxFailIndexedBatch{batch, f}); err != nil {
+		_ = batch.Close()
 		return err
 	}
 	if f.fail {
@@ -42,7 +105,9 @@ func (f *vxFailDB) Update(fn func(db.IndexedBatch) error) error {
 
 func (f *vxFailDB) Write(fn func(db.Batch) error) error {
 	batch := f.Database.NewBatch()
-	if err := fn(batch); err != nil {
+	f.puts = 0
+	if err := fn(vxFailBatch{batch, f}); err != nil {
+		_ = batch.Close()
 		return err
 	}
 	if f.fail {
@@ -151,4 +216,80 @@ func VxC05StoreCommitFailure() {
 	after := vxImage(mem)
 	// the snapshot of the running filter is dropped by a revert (fix KF-C09-1); it was not there before
 	vx.Assert(vxSameImage(before, after), "store-then-revert-restores-the-database-image")
+}
+
+
+// C05 (backend tier, write faults inside the batch): the k-th write issued while storing or
+// reverting a block fails (k symbolic over every write the operation issues). The operation must
+// report the failure, leave the database untouched, leave the in-memory event index describing the
+// chain that is on disk (it expects exactly the block after the stored head), and succeed when
+// repeated.
+func VxC05WriteFaultInsideBatch() {
+	vx.Bound("both state backends; block n = 8190 (thorough: also 8192, the first block of a window) on top of a head at n-1, empty block; Store with the k-th batch write failing (k = 1..9, every write position the operation has), then Store succeeds; RevertHead with the k-th batch write failing, then RevertHead succeeds")
+	const w = core.NumBlocksPerFilter
+	n := w - 2
+	if vx.Thorough() {
+		n += 2 * uint64(vx.Choice("n", 2))
+	}
+	newState := vx.Choice("backend", 2) == 1
+	mem := memory.New()
+	fdb := &vxFailDB{Database: mem}
+	parentHash := vxFeltIn("parentHash")
+	vx.Assume(!parentHash.IsZero())
+	parent := &core.Header{Number: n - 1, Hash: parentHash, ProtocolVersion: "0.13.2"}
+	vx.Assert(core.WriteBlockHeader(mem, parent) == nil && core.WriteChainHeight(mem, n-1) == nil, "setup")
+	from := n - n%w
+	if from > 0 {
+		prev := core.NewAggregatedFilter(from - w)
+		vx.Assert(core.WriteAggregatedBloomFilter(mem, &prev) == nil, "setup")
+	}
+	inner := core.NewAggregatedFilter(from)
+	rf := core.NewRunningEventFilterHot(fdb, &inner, n)
+	backend := New(fdb, rf, &networks.Sepolia, nil, newState)
+	hash := vxFeltIn("hash")
+	vx.Assume(!hash.IsZero() && !hash.Equal(parentHash))
+	block := &core.Block{Header: &core.Header{Number: n, Hash: hash, ParentHash: parentHash, ProtocolVersion: "0.13.2"}}
+	diff := core.EmptyStateDiff()
+	su := &core.StateUpdate{BlockHash: hash, OldRoot: &felt.Zero, NewRoot: &felt.Zero, StateDiff: &diff}
+
+	expectNext := func(want uint64, label string) {
+		got, err := rf.NextBlock()
+		vx.Assert(err == nil && got == want, label)
+	}
+	before := vxImage(mem)
+	faultInStore := vx.Choice("phase", 2) == 0
+	k := 0
+	if faultInStore {
+		k = 1 + vx.Choice("storeFault", 9)
+	}
+	fdb.failPut = k
+	err := backend.Store(block, &core.BlockCommitments{}, su, nil)
+	fdb.failPut = 0
+	if err != nil {
+		vx.Cover("store-write-fault-hit")
+		vx.Assert(vxSameImage(before, vxImage(mem)), "failed-store-leaves-the-database-untouched")
+		expectNext(n, "event-index-still-expects-the-block-after-the-disk-head")
+		vx.Assert(backend.Store(block, &core.BlockCommitments{}, su, nil) == nil, "store-succeeds-when-repeated")
+	} else {
+		vx.Cover("opt:store-issues-fewer-writes")
+	}
+	expectNext(n+1, "event-index-follows-the-stored-block")
+	stored := vxImage(mem)
+	k2 := 0
+	if !faultInStore {
+		k2 = 1 + vx.Choice("revertFault", 9)
+	}
+	fdb.failPut = k2
+	err = backend.RevertHead()
+	fdb.failPut = 0
+	if err != nil {
+		vx.Cover("revert-write-fault-hit")
+		vx.Assert(vxSameImage(stored, vxImage(mem)), "failed-revert-leaves-the-database-untouched")
+		expectNext(n+1, "event-index-still-expects-the-block-after-the-disk-head")
+		vx.Assert(backend.RevertHead() == nil, "revert-succeeds-when-repeated")
+	} else {
+		vx.Cover("opt:revert-issues-fewer-writes")
+	}
+	expectNext(n, "event-index-follows-the-revert")
+	vx.Assert(vxSameImage(before, vxImage(mem)), "store-then-revert-restores-the-database-image")
 }
